@@ -51,7 +51,7 @@ func genAction(r *gen.R) string {
 		}
 		return act("ok", jv(r))
 	case k < 11:
-		return act("resource", e(r.Pick([]string{"x.y", "svc.a", "bad..rid", "a?q=1", "*", "", "?", "?limit=5", "a.b?", "a.>", "a b", "x.a\\b", "x.\"q\"", "x.y?q=\"1\""})))
+		return act("resource", e(r.Pick([]string{"x.y", "svc.a", "bad..rid", "a?q=1", "*", "", "?", "?limit=5", "a.b?", "a.>", "a b", "x.a\\b", "x.\"q\"", "x.y?q=\"1\"", "x.a\x7fb", "x.a~b", "x.a!b", "x.a\x1fb", "x.a\u00e9b"})))
 	case k < 16:
 		switch r.Intn(5) {
 		case 0, 1:
@@ -81,7 +81,7 @@ func genAction(r *gen.R) string {
 	case k < 40:
 		return act("collection", jv(r), e(r.Pick([]string{"", "", "q=1"})))
 	case k < 42:
-		return act("new", e(r.Pick([]string{"x.y", "bad..rid", "", "?q=1", "a.b?x=1", "x.a\\b", "x.\"q\""})))
+		return act("new", e(r.Pick([]string{"x.y", "bad..rid", "", "?q=1", "a.b?x=1", "x.a\\b", "x.\"q\"", "x.a\x7fb", "x.a~b", "x.a!b", "x.a\x1fb"})))
 	case k < 49:
 		if r.Chance(1, 3) {
 			// a duration that is not a whole number of milliseconds: the pre-response announces whole milliseconds
